@@ -111,6 +111,7 @@ def check(ctx):
     # ------------------------------------------------------------ S2 mounted store
     ms = m.one_class("MountedStore", "MOUNTED")
     rd, wr = ms.methods["read"], ms.methods["write"]
+    direct_forms = set()
     for f, first, second in ((wr, "create_store", "copy_from_local"), (rd, "copy_to_local", "create_store")):
         ws = [n for n in f.own_nodes() if isinstance(n, ast.With)]
         ok = len(ws) == 1 and len([s_ for s_ in f.node.body if not (isinstance(s_, ast.Expr) and isinstance(s_.value, ast.Constant))]) == 1
@@ -119,16 +120,35 @@ def check(ctx):
         if not ok:
             continue
         lp = ws[0].items[0].optional_vars.id if isinstance(ws[0].items[0].optional_vars, ast.Name) else None
+        wbody = list(ws[0].body)
+        ce = ws[0].items[0].context_expr
+        if isinstance(ce, ast.Call) and ext_names(m, f, ce) & {"tempfile.TemporaryDirectory"} and not ce.args and not ce.keywords and lp:
+            # direct form: `with TemporaryDirectory() as d: p = os.path.join(d, <constant>); ...` - the directory is
+            # created by this very call, the scratch path lies inside it
+            st0 = wbody[0] if wbody else None
+            inner = st0.value if isinstance(st0, ast.Assign) and len(st0.targets) == 1 and isinstance(st0.targets[0], ast.Name) else None
+            okp = isinstance(inner, ast.Call) and ext_names(m, f, inner) & {"os.path.join"} and len(inner.args) == 2 and is_name(inner.args[0], lp) \
+                and _constant_str(m, f, inner.args[1]) and not inner.keywords
+            if okp:
+                okp = sum(1 for n in f.own_nodes() if isinstance(n, ast.Name) and isinstance(n.ctx, ast.Store) and n.id in (lp, st0.targets[0].id)) == 2
+            ctx.ob("C12.S2", f"{f.short}/private-scratch", bool(okp), loc(f, ws[0]),
+                   "the operation creates its own TemporaryDirectory; the scratch path is a fixed name inside it" if okp else
+                   "the scratch path is not a fixed name inside the operation's own TemporaryDirectory")
+            if not okp:
+                continue
+            direct_forms.add(f)
+            lp = st0.targets[0].id
+            wbody = wbody[1:]
         seq = []
-        for st in ws[0].body:
+        for st in wbody:
             txt = norm(st)
             for nm in ("create_store", "copy_from_local", "copy_to_local"):
                 if f"self.{nm}(" in txt:
                     seq.append((nm, st))
         names = [s for s, _ in seq]
-        ok = names == [first, second] and len(ws[0].body) == 2
+        ok = names == [first, second] and len(wbody) == 2
         ctx.ob("C12.S2", f"{f.short}/order", ok, loc(f), f"{first} then {second}" if ok else
-               f"body is {[norm(s_)[:40] for s_ in ws[0].body]} (operations {names}): the remote copy happens before the local file is complete, the local file is read before it was fetched, or an extra check changes which values round-trip")
+               f"body is {[norm(s_)[:40] for s_ in wbody]} (operations {names}): the remote copy happens before the local file is complete, the local file is read before it was fetched, or an extra check changes which values round-trip")
         for nm, st in seq:
             c = [x for x in ast.walk(st) if isinstance(x, ast.Call) and isinstance(x.func, ast.Attribute) and x.func.attr == nm][0]
             ok = len(c.args) == 1 and is_name(c.args[0], lp)
@@ -140,7 +160,7 @@ def check(ctx):
             for it in w_.items:
                 if isinstance(it.context_expr, ast.Call):
                     ctxs |= {g for g in m.callee_funcs(f, it.context_expr) if g.is_contextmanager}
-    if not ctxs:
+    if not ctxs and direct_forms != {rd, wr}:
         raise AnalysisError("MountedStore: temporary path context not resolved")
     for pc in ctxs:
         ys = [n for n in pc.own_nodes() if isinstance(n, ast.Yield)]
@@ -217,6 +237,20 @@ def check(ctx):
     for cls in stores:
         if "get_modified_time" in cls.methods:
             ctx.ob("C12.S3", f"{cls.name}/no-override", False, loc(cls.methods["get_modified_time"]), "subclass overrides get_modified_time")
+
+
+def _constant_str(m, f, e):
+    """A string literal, or a module-level name bound exactly once to a string literal."""
+    if isinstance(e, ast.Constant):
+        return isinstance(e.value, str) and e.value not in ("", ".", "..") and "/" not in e.value
+    if isinstance(e, ast.Name):
+        defs = [st for st in f.module.tree.body if isinstance(st, (ast.Assign, ast.AnnAssign)) and any(
+            isinstance(t, ast.Name) and t.id == e.id for t in (st.targets if isinstance(st, ast.Assign) else [st.target]))]
+        rebinds = [n for n in ast.walk(f.module.tree) if isinstance(n, ast.Name) and n.id == e.id and isinstance(n.ctx, (ast.Store, ast.Del))]
+        glob = [n for n in ast.walk(f.module.tree) if isinstance(n, ast.Global) and e.id in n.names]
+        return len(defs) == 1 and len(rebinds) == 1 and not glob and defs[0].value is not None and _constant_str(m, f, defs[0].value) \
+            and isinstance(defs[0].value, ast.Constant)
+    return False
 
 
 def is_self_path(e, f):
